@@ -180,6 +180,10 @@ func (ex *Exec) callCommon(cc *ssa.CallCommon, in *ssa.Call, p token.Pos) *Val {
 			}
 		}
 	}
+	if callee == nil && ex.w.isCancelCall(cc.Value) {
+		c.trust("context cancel functions have no effect on the heap of the module")
+		return nil
+	}
 	if callee == nil {
 		// unknown function value
 		c.note("%s: call of unknown function value at %s: results and heap havoc'd", ex.fn.Name(), relPos(ex.pos(p)))
@@ -202,6 +206,9 @@ func (ex *Exec) callCommon(cc *ssa.CallCommon, in *ssa.Call, p token.Pos) *Val {
 		return nil
 	}
 	if r, ok := ex.sortSlice(callee, cc, p); ok {
+		return r
+	}
+	if r, ok := ex.deepEqualCall(callee, cc); ok {
 		return r
 	}
 	args := ex.argVals(cc)
@@ -280,6 +287,9 @@ func (ex *Exec) freshResults(res *types.Tuple, hint string) *Val {
 
 func (ex *Exec) callFunction(callee *ssa.Function, args []Val, binds []Val, p token.Pos) *Val {
 	w := ex.w
+	if len(callee.Blocks) == 0 && callee.Pkg != nil && strings.HasPrefix(funcPkgPath(callee), modulePath) {
+		callee.Pkg.Build() // SSA of in-module dependencies is built on demand
+	}
 	ex.assertCalls(callee.String(), paramNames(callee), args, p)
 	ct, key := w.contractFor(callee)
 	if ct != nil && !ct.Inline {
@@ -646,6 +656,11 @@ func (ex *Exec) havocForCall(callee *ssa.Function, args []Val, p token.Pos) {
 		ex.flushPendingHavoc()
 		return
 	}
+	if isLogFunc(callee) {
+		c.trust("logging calls are pure")
+		ex.flushPendingHavoc()
+		return
+	}
 	pp := funcPkgPath(callee)
 	if !strings.HasPrefix(pp, modulePath) || len(callee.Blocks) == 0 {
 		c.note("%s: call of %s without contract: arguments' reachable heap havoc'd", ex.fn.Name(), callee.String())
@@ -654,16 +669,26 @@ func (ex *Exec) havocForCall(callee *ssa.Function, args []Val, p token.Pos) {
 		return
 	}
 	ms := w.modOf(c, callee)
-	if ms.all {
-		c.note("%s: call of %s: inferred modifies = everything", ex.fn.Name(), callee.String())
+	ex.applyMods(ms, "call of "+callee.String())
+	ex.bumpAlloc()
+	ex.flushPendingHavoc()
+}
+
+// applyMods havocs an inferred frame.
+func (ex *Exec) applyMods(ms *modSet, what string) {
+	c := ex.c
+	switch {
+	case ms.big:
+		c.note("%s: %s: large inferred frame (%d heap keys): everything else known so far is preserved", ex.fn.Name(), what, len(ms.descs))
+		ex.havocBig(ms)
+	case ms.all:
+		c.note("%s: %s: inferred modifies = everything", ex.fn.Name(), what)
 		c.heapHavocAll(ex.st)
-	} else {
+	default:
 		for _, k := range sortedKeys(ms.keys) {
 			c.heapHavoc(ex.st, k)
 		}
 	}
-	ex.bumpAlloc()
-	ex.flushPendingHavoc()
 }
 
 var purePkgs = map[string]bool{
@@ -746,26 +771,15 @@ func (ex *Exec) invoke(cc *ssa.CallCommon, p token.Pos) *Val {
 		ex.flushPendingHavoc()
 		return ex.freshResults(m.Type().(*types.Signature).Results(), "iv."+m.Name())
 	}
+	ms = newModSet()
 	for _, f := range impls {
 		if fct, _ := w.contractFor(f); fct != nil && fct.Pure {
 			continue
 		}
-		fm := w.modOf(c, f)
-		if fm.all {
-			ms.all = true
-		}
-		for k := range fm.keys {
-			ms.keys[k] = true
-		}
+		ms.union(w.modOfRec(f, 0, map[*ssa.Function]bool{}))
 	}
-	if ms.all {
-		c.note("%s: interface call %s: inferred modifies = everything", ex.fn.Name(), name)
-		c.heapHavocAll(ex.st)
-	} else {
-		for _, k := range sortedKeys(ms.keys) {
-			c.heapHavoc(ex.st, k)
-		}
-	}
+	ms.register(c)
+	ex.applyMods(ms, "interface call "+name)
 	ex.bumpAlloc()
 	ex.flushPendingHavoc()
 	return ex.freshResults(m.Type().(*types.Signature).Results(), "iv."+m.Name())
@@ -896,6 +910,9 @@ func (ex *Exec) builtin(b *ssa.Builtin, cc *ssa.CallCommon, p token.Pos) *Val {
 		}
 		return nil
 	case "print", "println":
+		return nil
+	case "close":
+		c.trust("channel close modelled as a no-op (blocking and delivery not modelled)")
 		return nil
 	case "clear":
 		switch u := cc.Args[0].Type().Underlying().(type) {
